@@ -46,8 +46,8 @@ class Rule:
 
     def expect_min(self, n):
         """vacuity guard: fewer matched instances than confirmed by hand = analysis broken"""
-        if any(not i[1] for i in self.instances):
-            return      # a reported violation cut the exploration short; the count is not meaningful
+        if any(not i[1] for r in self.report.rules for i in r.instances):
+            return      # a reported violation (in this rule or in one sharing its exploration) cut the exploration short; the count is not meaningful
         if len(self.instances) < n:
             raise AnalysisBroken('rule %s matched %d instances, confirmed minimum is %d' %
                                  (self.name, len(self.instances), n))
